@@ -1124,12 +1124,19 @@ def run_job(job):
             continue
         texts = [f"{k}: {safe_str(t[0])}" for k, t in enumerate(rec.snapF)]
         ov = make_ov(case["pairs"])
-        probs = ref_check(case["prog"], case["colour"], ov, case["removed"], case["live"], set(case["fixed"]))
+        allp = ref_check(case["prog"], case["colour"], ov, case["removed"], case["live"], set(case["fixed"]))
+        probs = [p for p in allp if p[0] != "entry-live-values-alias"]
+        entry = [p for p in allp if p[0] == "entry-live-values-alias"]
+        defined = {d for a in case["prog"] for d in a["defs"]}
+        # a value that is live-in at entry and has no definition anywhere is read before being written:
+        # there is no "most recent definition" to preserve; sharing a register is then not a clobber
+        entry_bad = [p for p in entry if p[2][0] in defined and p[2][1] in defined]
         used = {case["colour"][v] for a in case["prog"] for v in a["uses"] + a["defs"]}
         alias_in_use = any((p, q) in {(x, y) for x, y in case["pairs"]} for p in used for q in used if p < q)
         meta = dict(base, kind="alloc", n=len(case["prog"]), rewrites=len(rec.rewrites), removed=sum(case["removed"]),
                     maxlive=max([len(l) for l in case["live"]] or [0]), alias_in_use=alias_in_use,
-                    ref=[p[0] for p in probs[:5]], declared_moves_not_wf=sum(1 for a in case["prog"] if a["declared_move"] and not a["move"]))
+                    ref=[p[0] for p in probs[:5]], entry=len(entry), entry_bad=[(case["names"][p[2][0]], case["names"][p[2][1]]) for p in entry_bad],
+                    entry_pairs=[(case["names"][p[2][0]], case["names"][p[2][1]]) for p in entry[:4]], declared_moves_not_wf=sum(1 for a in case["prog"] if a["declared_move"] and not a["move"]))
         if probs:
             meta["diag"] = diagnose(case, texts, probs)
         res["lines"].append(alloc_line(case))
@@ -1239,10 +1246,18 @@ def check(ctx, jobs=None):
             if m["declared_moves_not_wf"]:
                 ctx.count("moves_treated_as_ordinary_instructions", m["declared_moves_not_wf"])
             ref_ok = not m["ref"]
-            if rep == "ok accept":
+            if rep in ("ok accept", "ok accept entry-shared"):
                 ctx.count("programs")
-                if not ref_ok:
-                    ctx.disagree("alloc-check", {"job": m["job"], "frame": m["frame"]}, "python reference rejects: " + str(m["ref"]), rep)
+                if not ref_ok or (rep == "ok accept") != (m["entry"] == 0):
+                    ctx.disagree("alloc-check", {"job": m["job"], "frame": m["frame"]},
+                                 "python reference: " + str(m["ref"]) + f" entry conflicts {m['entry']}", rep)
+                if rep != "ok accept":
+                    ctx.count("frames_with_undefined_entry_values_sharing_a_register")
+                    ctx.note(f"{jid} {m['frame']}: values that are live-in at entry and never defined share a register: {m['entry_pairs']}")
+                    if m["entry_bad"]:
+                        ctx.fail("alloc:entry-live-values-alias",
+                                 f"{m['arch']} frame {m['frame']} ({jid}): two values live at function entry, both defined later, share a register: {m['entry_bad']}",
+                                 {"job": m["job"], "frame": m["frame"]}, lean=rep)
             elif rep.startswith("ok reject"):
                 ctx.count("alloc_rejected")
                 if ref_ok:
